@@ -3,10 +3,10 @@ import os
 import lib
 
 BASE = {"NC": 2, "NS": 1, "UNITS": 2, "MAXWRITE": 2, "UNORDERED": "FALSE", "SINGLE": "FALSE",
-        "FEAT": '"swrite"', "DEV": "", "LATE": "", "EXTRAINV": ""}
+        "FEAT": '"swrite"', "DEV": "", "LATE": "", "EXTRAINV": "", "TIMEREP": "none"}
 
 # deviations the current tree still has (kept in step with the fix: commits in /repo)
-CODE_DEV = '"TimerCheckThenAct"'
+CODE_DEV = ""
 
 
 def cfg(**kw):
@@ -36,10 +36,12 @@ def generate(ctx, name, subst, depth, noops=0, simulate=None, workers=None):
     return r.behaviours
 
 
-def replay(ctx, name, behaviours, nc, unordered=False, singleplex=False, allconc=False, timeout=900):
+def replay(ctx, name, behaviours, nc, unordered=False, singleplex=False, allconc=False, timeout=900,
+           gates=False, timerep="", late=0):
     inp = lib.write_lines(os.path.join(ctx.work, "mux_%s.ndjson" % name), behaviours)
     env = {"VERIF_IN": inp, "VERIF_MUX_NC": nc, "VERIF_MUX_UNORDERED": "1" if unordered else "",
-           "VERIF_MUX_SINGLEPLEX": "1" if singleplex else "", "VERIF_MUX_ALLCONC": "1" if allconc else ""}
+           "VERIF_MUX_SINGLEPLEX": "1" if singleplex else "", "VERIF_MUX_ALLCONC": "1" if allconc else "",
+           "VERIF_MUX_GATES": "1" if gates else "", "VERIF_MUX_TIMEREP": timerep, "VERIF_MUX_LATE": late}
     res = lib.run_go(ctx, "multiplex", "TestVerifMuxReplay", env=env, tag="replay_" + name, timeout=timeout)
     div = res.get("stats", {}).get("diverged", 0)
     ctx.log("replay %s: %d evaluations, %d violations, %d diverged" % (
